@@ -18,6 +18,7 @@ import NiftyVerif.Lemmas.ExprCalc
 import NiftyVerif.Lemmas.ExprAdj
 
 set_option linter.unusedSimpArgs false
+set_option linter.unusedSectionVars false
 namespace NiftyVerif.C03
 open NiftyVerif NiftyVerif.Gen.Ptw NiftyVerif.Expr NiftyVerif.TranscReal
 
@@ -91,7 +92,7 @@ theorem ptw_table_hasDerivAt (f : Fn) (p : List ℝ) (x : ℝ) (h : PtwValid f p
 
 section linval
 variable {K : Type} [Zero K] [Add K] [Sub K] [Mul K] [Div K] [Neg K] [OfScientific K]
-  [LT K] [DecidableLT K] [LE K] [DecidableLE K] [Transc K]
+  [LT K] [DecidableLT K] [LE K] [DecidableLE K] [Transc K] [Conj K]
 
 theorem fn_hval_eq_val (f : Fn) (p : List K) (v : K) : f.hval p v = f.val p v := by
   cases f <;> rcases p with _ | ⟨a, _ | ⟨b, _ | ⟨c, l⟩⟩⟩ <;> rfl
@@ -332,14 +333,14 @@ theorem lin_hasDerivAt (e : Ex ℝ) (wm : Bool) :
 /-- `prepend_jac` sandwiches the metric: for `f ∘ g` the metric is `Jgᵀ · M_f(g ρ) · Jg`, with `Jg`, `Jgᵀ` the
     TIMES / ADJOINT_TIMES of the inner Jacobian; it is present exactly when the outer operator produced one -/
 theorem metric_carried {K : Type} [Zero K] [Add K] [Sub K] [Mul K] [Div K] [Neg K] [OfScientific K]
-    [LT K] [DecidableLT K] [LE K] [DecidableLE K] [Transc K] (f g : Ex K) (ρ : MVal K) (wm : Bool) :
+    [LT K] [DecidableLT K] [LE K] [DecidableLE K] [Transc K] [Conj K] (f g : Ex K) (ρ : MVal K) (wm : Bool) :
     (lin (.chain f g) ρ wm).metric =
       ((lin f (eval g ρ) wm).metric).map (fun M h => (lin g ρ wm).adj (M ((lin g ρ wm).jac h))) := by
   simp only [lin, lin_val]
 
 /-- a Gaussian energy on top of any expression: metric `Jᵀ N J` when requested, none otherwise -/
 theorem metric_gauss {K : Type} [Zero K] [Add K] [Sub K] [Mul K] [Div K] [Neg K] [OfScientific K]
-    [LT K] [DecidableLT K] [LE K] [DecidableLE K] [Transc K] (data icov : List K) (a : Ex K) (ρ : MVal K) :
+    [LT K] [DecidableLT K] [LE K] [DecidableLE K] [Transc K] [Conj K] (data icov : List K) (a : Ex K) (ρ : MVal K) :
     (lin (.gauss data icov a) ρ true).metric =
       some (fun h => (lin a ρ true).adj (mask a.dom (fun k j => ofList icov j * (lin a ρ true).jac h k j))) ∧
     (lin (.gauss data icov a) ρ false).metric = none := by
@@ -347,20 +348,20 @@ theorem metric_gauss {K : Type} [Zero K] [Add K] [Sub K] [Mul K] [Div K] [Neg K]
 
 /-- `_OpSum`: the metrics of summed energies add (and the sum has a metric only if every summand has one) -/
 theorem metric_sum {K : Type} [Zero K] [Add K] [Sub K] [Mul K] [Div K] [Neg K] [OfScientific K]
-    [LT K] [DecidableLT K] [LE K] [DecidableLE K] [Transc K] (a b : Ex K) (ρ : MVal K) (wm : Bool)
+    [LT K] [DecidableLT K] [LE K] [DecidableLE K] [Transc K] [Conj K] (a b : Ex K) (ρ : MVal K) (wm : Bool)
     (ma mb : MVal K → MVal K) (ha : (lin a ρ wm).metric = some ma) (hb : (lin b ρ wm).metric = some mb) :
     (lin (.add a b) ρ wm).metric = some (fun h k i => ma h k i + mb h k i) := by
   simp only [lin, ha, hb]
 
 /-- `ScalingOperator.__call__`: scaling an energy by a non-negative factor scales its metric by the same factor -/
 theorem metric_scale {K : Type} [Zero K] [Add K] [Sub K] [Mul K] [Div K] [Neg K] [OfScientific K]
-    [LT K] [DecidableLT K] [LE K] [DecidableLE K] [Transc K] (c : K) (hc : (0 : K) ≤ c) (a : Ex K) (ρ : MVal K)
+    [LT K] [DecidableLT K] [LE K] [DecidableLE K] [Transc K] [Conj K] (c : K) (hc : (0 : K) ≤ c) (a : Ex K) (ρ : MVal K)
     (wm : Bool) (M : MVal K → MVal K) (ha : (lin a ρ wm).metric = some M) :
     (lin (.scale c a) ρ wm).metric = some (fun h k i => c * M h k i) := by
   simp only [lin, ha, hc, if_true, Option.map]
 
 theorem metric_sum_none {K : Type} [Zero K] [Add K] [Sub K] [Mul K] [Div K] [Neg K] [OfScientific K]
-    [LT K] [DecidableLT K] [LE K] [DecidableLE K] [Transc K] (a b : Ex K) (ρ : MVal K) (wm : Bool)
+    [LT K] [DecidableLT K] [LE K] [DecidableLE K] [Transc K] [Conj K] (a b : Ex K) (ρ : MVal K) (wm : Bool)
     (h : (lin a ρ wm).metric = none ∨ (lin b ρ wm).metric = none) :
     (lin (.add a b) ρ wm).metric = none := by
   rcases h with h | h
